@@ -447,6 +447,67 @@ def final (cd : Codec) (ls : List Layer) (v0 w0 : Int) (ops : List (Op × List (
 def St.read (cd : Codec) (s : St) (keys : List Key) (hs : List (List Key)) : Res :=
   (getL cd s.wall s.layers s.be keys hs).2.1
 
+/-! ## any number of in-memory layers
+
+With several in-memory layers on a path each of them may take a copy from the layer below while
+that copy is still served there, so retentions add up: the total `slack` of a stack is the sum of
+the (non-negative parts of the) default retentions of its in-memory layers. The judge for such
+stacks checks value, deletion and — on one clock — the hard deadline `TTL end + slack`. -/
+
+def slack : List Layer → Int
+  | [] => 0
+  | .lru _ d _ :: ls => max d 0 + slack ls
+  | _ :: ls => slack ls
+
+def lruCount : List Layer → Nat
+  | [] => 0
+  | .lru .. :: ls => lruCount ls + 1
+  | _ :: ls => lruCount ls
+
+/-- may `v` be returned for `k`? value / deletion as in `checkRead`; deadline: on one clock
+(`coupled`) never `slack` or more after the end of the TTL of the last store. -/
+def checkReadM (sl : Int) (coupled : Bool) (j : JSt) (keys : List Key) (k : Key) (v : Bytes) : List String :=
+  (if keys.contains k then [] else ["read-unrequested-key"]) ++
+  match j.spec.get k with
+  | .never => ["read-never-stored"]
+  | .deleted => ["read-after-delete"]
+  | .present val dV _ _ =>
+    (if v = val then [] else ["read-not-last-stored"]) ++
+    (if coupled = false ∨ j.V < dV + sl then [] else ["read-after-hard-deadline"])
+
+/-- the judge step for stacks with several in-memory layers: stores, deletes, `Add` outcomes and
+clocks as `jstep` (no in-memory bookkeeping), reads by `checkReadM`. -/
+def jstepM (sl : Int) (coupled : Bool) (j : JSt) (op : Op) (obs : Obs) : JSt × List String :=
+  match op, obs with
+  | .get keys, .got res _ => (j, res.flatMap fun kv => checkReadM sl coupled j keys kv.1 kv.2)
+  | _, _ => jstep ⟨false, 0, []⟩ [] j op obs
+
+/-! ## two clients over a shared lower part (what the oracle runs for `cl=2` cases) -/
+
+def isLru : Layer → Bool
+  | .lru .. => true
+  | _ => false
+
+/-- align the observed per-LRU key orders with the layers of a path. -/
+def alignHints : List Layer → List (List Key) → List (List Key)
+  | [], _ => []
+  | l :: ls, hs => if isLru l then hs.headD [] :: alignHints ls hs.tail else [] :: alignHints ls hs
+
+/-- the whole system: private upper parts per client, shared lower part. -/
+structure Sys where
+  ups : List (List Layer)
+  low : List Layer
+  be : Backend
+  wall : Int
+
+def Sys.path (s : Sys) (c : Nat) : List Layer := (s.ups.getD c []) ++ s.low
+
+def Sys.apply (cd : Codec) (s : Sys) (c : Nat) (op : Op) (hs : List (List Key)) : Sys × Obs :=
+  let p := s.path c
+  let r := step cd ⟨p, s.be, s.wall⟩ op (alignHints p hs)
+  let n := (s.ups.getD c []).length
+  ({ ups := s.ups.set c (r.1.layers.take n), low := r.1.layers.drop n, be := r.1.be, wall := r.1.wall }, r.2)
+
 /-! ## jump hash and server selection -/
 
 def lcg (key : UInt64) : UInt64 := key * 2862933555777941757 + 1
